@@ -979,7 +979,12 @@ def gen_equiv(rng, idx):
                 dead_b = {case["biases"][0]["name"]}
                 victims_b = [case["biases"][0]]
         K = rng.choice([0, 0, 2]) if case["T"] > 3 else 0
-        a = header(case) + "module\nconfig <<EOC\n" + glob + cvtxt + btxt + "EOC\ninit\n" + step_block(case, 0, K)
+        hdr = header(case)
+        if case.get("cb"):
+            # a scripted-force procedure acts on the first variable at every step, whatever biases exist
+            hdr += "forcecb %s %s\n" % (case["cb"]["cv"], case["cb"]["force"])
+            glob += "scriptedColvarForces on\nscriptingAfterBiases %s\n" % ("on" if case["cb"]["after"] else "off")
+        a = hdr + "module\nconfig <<EOC\n" + glob + cvtxt + btxt + "EOC\ninit\n" + step_block(case, 0, K)
         for bn in sorted(b["name"] for b in victims_b):
             a += "script " + json.dumps(["cv", "bias", bn, "delete"]) + "\n"
         if victim_cv:
@@ -987,8 +992,10 @@ def gen_equiv(rng, idx):
         a += "mark go\n" + step_block(case, K)
         cv_b = "\n".join(cv["text"] for cv in case["cvs"] if cv is not victim_cv) + "\n"
         b_b = "".join(b["text"] for b in case["biases"] if b["name"] not in dead_b)
-        b = header(case) + "module\nconfig <<EOC\n" + glob + cv_b + b_b + "EOC\ninit\n" + step_block(case, 0, K) + "mark go\n" + step_block(case, K)
-        return dict(kind=kind, idx=idx, sub="%s%s@%d" % ("bias" if dead_b else "", "+colvar" if victim_cv else "", K), scn={"A": a, "B": b}, mark="go", case=case,
+        if case.get("cb") and victim_cv is not None and victim_cv["name"] == case["cb"]["cv"]:
+            return dict(kind=kind, idx=idx, sub="none", scn={"A": "", "B": ""}, case=case, trivial=True)
+        b = hdr + "module\nconfig <<EOC\n" + glob + cv_b + b_b + "EOC\ninit\n" + step_block(case, 0, K) + "mark go\n" + step_block(case, K)
+        return dict(kind=kind, idx=idx, sub="%s%s@%d%s" % ("bias" if dead_b else "", "+colvar" if victim_cv else "", K, ":scripted_forces" if case.get("cb") else ""), scn={"A": a, "B": b}, mark="go", case=case,
                     trivial=(not dead_b and not victim_cv))
     # addforce: one scalar variable of width w; A: linear bias of strength k (force -k/w on the variable);
     # B: no bias, after each step  addforce F=-k/w, update, communicateforces, getatomappliedforces
